@@ -152,6 +152,7 @@ def plan_C01(tier, rng):
         inputs += [(s, t, F) for (s, t) in gens.edge_inputs(F, rng)]
         inputs += [(s, t, F) for (s, t) in gens.random_decimal(rng, 400 if quick else 6000)]
         inputs += [(s, t, F) for (s, t) in gens.random_long_decimal(rng, 10 if quick else 150)]
+        inputs += [(s, t, F) for (s, t) in gens.sticky_placement_inputs(F, rng, (2 if F is F64 else 4) if quick else 30)]
     i = 0
     for (s, tag, F) in inputs:
         i += 1
@@ -526,13 +527,31 @@ def plan_C11(tier, rng):
             cs.parse(ep, ty, radix_fmt(r), data, [rc[0]], wo=True, opts=o, tag="radix")
             cs.parse(ep, ty, radix_fmt(r), data, [rc[0]], wo=True, opts=o, partial=True, want_prefix=True)
 
+    # formats with syntax flags and digit separators: the automaton's per-transition witnesses, each also
+    # followed by a byte that cannot continue a number
+    W, wmodel = _witness.scan_witnesses()
+    Fm = fmt_tags()
+    wsel = [w for w in W if w["f"] != 0 and len(w["s"]) >= 1]
+    wsel = rng.sample(wsel, min(len(wsel), 9000 if quick else 150000))
+    for w in wsel:
+        i += 1
+        f = Fm[w["f"]]
+        if i % 6 == 0:
+            ep = cs.new_ep()
+        isf = w["k"] == "float"
+        ty = ("f64" if i % 3 else "f32") if isf else ("i32" if i % 2 else "u64")
+        o = opts_for_fmt(f) if isf else dict(PI_DEFAULT)
+        data = list(w["s"]) + ([rng.choice([59, 32, 122, 43])] if i % 2 else [])
+        cs.parse(ep, ty, w["f"], data, ["rf"], wo=True, opts=o, tag="witness")
+        cs.parse(ep, ty, w["f"], data, ["rf"], wo=True, opts=o, partial=True, want_prefix=True)
+
     def phase2(events, cs2):
         # after seeing n: the complete parser on the first n bytes
         for e in events:
             if e.get("want_prefix") and e["res"].get("k") == "ok" and 0 < e["res"]["n"] < e["len"]:
                 cs2.parse(e["ep"], e["ty"], e["fmt"], e["in"][:e["res"]["n"]], [e["_cfgname"]], wo=e["wo"], opts=e["opts"],
                           tag="prefix")
-    models = [("MC_IntParse.tla", "MC_IntParse.cfg", 8, 900)]
+    models = [("MC_IntParse.tla", "MC_IntParse.cfg", 8, 900), wmodel]
     return cs, models, {"input_families": cs.tags, "configurations": cfgs, "phase2": phase2}
 
 
@@ -824,7 +843,7 @@ def plan_C08(tier, rng):
 
     def phase2(events, cs2):
         add_back(events, cs2)
-    models = []
+    models = [("MC_FloatWrite.tla", "MC_FloatWrite_quick.cfg" if quick else "MC_FloatWrite.cfg", 8, 1800)]
     return cs, models, {"input_families": cs.tags, "configurations": cfgs, "phase2": phase2}
 
 
@@ -1004,7 +1023,7 @@ def plan_C14(tier, rng):
                 for g in rng.sample(grid, 2):
                     cs.write(ep, F["name"], radix_fmt(r), bits, c, wo=True, opts=wf(**dict(g, exp=ec)))
                 cs.write(ep, F["name"], radix_fmt(r), bits, c, wo=True, opts=wf(exp=ec, trim=True))
-    models = []
+    models = [("MC_FloatWrite.tla", "MC_FloatWrite_quick.cfg" if quick else "MC_FloatWrite.cfg", 8, 1800)]
     return cs, models, {"input_families": cs.tags, "configurations": cfgs}
 
 
@@ -1139,6 +1158,39 @@ def plan_C13(tier, rng):
                 if ne == 0 and nf_ == 0:
                     cs.parse(ep, "u64" if ni > 9 else "i32", f["id"], v, ["rf"], wo=True, opts=dict(PI_DEFAULT), tag="long-separated-int")
             cs.parse(ep, "f64", f["id"], variants[-1], ["rf"], wo=True, opts=o, partial=True)
+        # separators only where this format enables them (so the input is accepted), in long components:
+        # more than 19 significant digits reach the truncated-mantissa and big-integer paths
+        flags = {n for (n, a) in f["calls"] if a is True}
+        def enabled(comp, kind):
+            return ("%s_%s_digit_separator" % (comp, kind) in flags or "%s_digit_separator" % kind in flags
+                    or "digit_separator_flags" in flags or "%s_digit_separator_flags" % comp in flags)
+        for _ in range(4 if quick else 30):
+            i += 1
+            ep = cs.new_ep()
+            parts = {"integer": "".join(rng.choice("123456789") + "".join(rng.choice(digs) for _ in range(rng.choice([0, 2, 8, 21])))),
+                     "fraction": "".join(rng.choice(digs) for _ in range(rng.choice([1, 9, 22, 40]))),
+                     "exponent": "".join(rng.choice("123456789" if not hexa else digs) for _ in range(rng.choice([1, 2])))}
+            plain = parts["integer"] + "." + parts["fraction"] + chr(o["exp"]) + parts["exponent"]
+            sepd = {}
+            for comp, txt in parts.items():
+                b = list(txt)
+                if enabled(comp, "internal") and len(b) > 1:
+                    for _ in range(rng.choice([1, 2, 4])):
+                        pos = rng.randrange(1, len(b))
+                        if b[pos - 1] != chr(sepc) and b[pos] != chr(sepc) or enabled(comp, "consecutive"):
+                            b.insert(pos, chr(sepc))
+                if enabled(comp, "leading") and rng.random() < 0.4:
+                    b.insert(0, chr(sepc))
+                if enabled(comp, "trailing") and rng.random() < 0.4:
+                    b.append(chr(sepc))
+                sepd[comp] = "".join(b)
+            v = sepd["integer"] + "." + sepd["fraction"] + chr(o["exp"]) + sepd["exponent"]
+            for ty in ("f64", "f32"):
+                cs.parse(ep, ty, f["id"], v, ["rf"], wo=True, opts=o, tag="legal-separators-long")
+                cs.parse(ep, ty, f["id"], plain, ["rf"], wo=True, opts=o)
+            cs.parse(ep, "f64", f["id"], v, ["rf"], wo=True, opts=o, partial=True)
+            vi = sepd["integer"]
+            cs.parse(ep, "u64" if len(parts["integer"]) > 9 else "i32", f["id"], vi, ["rf"], wo=True, opts=dict(PI_DEFAULT), tag="legal-separators-int")
     return cs, [model], {"input_families": cs.tags, "configurations": ["rf"]}
 
 
@@ -1443,6 +1495,29 @@ def replay(path):
         print("replay: no violation of %s reproduced" % prop)
     return 1 if n else 0
 
-LEVEL = {}
+_COMMON = (" Every executed call is judged by TLC walking spec/Trace.tla over the recorded ndjson trace (one action per operation kind; "
+           "a mismatch is recorded with its line and the walk goes on); Rust std referees the oracle on the default format (a dispute is exit 2). "
+           "Not universal over inputs: constructed hard cases + seeded sampling; see evidence for the counts of this run.")
+LEVEL = {
+ "C01": "TLA+ oracle Ieee!CorrectlyRounded on exact BigNat arithmetic (validated against brute force on a toy format by MC_Ieee, against native integers by MC_BigNat) judges every recorded parse::<f32|f64> call: exact halfway expansions per binade and their +-1 perturbations and truncations at the 19/20/768/769/770-digit limits, Eisel-Lemire row straddlers, fast-path limits, overflow/underflow edges, random; complete, partial and with-options API under default, compact, radix+format, compact+radix+format builds." + _COMMON,
+ "C02": "TLA+ predicates RoundTrips / IsShortest (convexity shortcut) / IsClosest, proved equal to their definitions on a toy format by MC_Ieee, judge every recorded write::<f32|f64>: all 2046+254 shorter-interval floats, per-binade patterns, the endpoint family (decimals exactly on a closed interval endpoint, k>=17 exhaustively in quick), powers of ten, random bits; compact builds judged for round trip and <= 17/9 digits." + _COMMON,
+ "C03": "TLA+ oracle IntWrite!IntWriteWhy (sign, canonical upper-case digits, no leading zero, FromDigits(out) = |v| in BigNat) on u8/i8 exhaustively for all 35 radices (u16/i16 too in thorough) and r^k-1, r^k, r^k+1, MIN, MAX, 64-bit split values for the wider types; decimal output also equal to Rust Display; returned slice starts at the buffer start." + _COMMON,
+ "C04": "TLA+ reference IntParse!IntParseSpec (left-to-right Empty / InvalidDigit(i) / Overflow(i) / Underflow(i), exact BigNat accumulation) judges complete and partial parses of boundary numerals, long zero prefixes, invalid bytes at every position incl. SWAR-window neighbours, all 12 types x 35 radices; MC_IntParse proves on toy widths that the 'unchecked prefix then checked' strategy equals the reference and that overflow_digits+1 breaks it." + _COMMON,
+ "C05": "As C01 with FloatExact in any radix / mixed base (CmpScaled via the odd part of the radix): per radix near-halfway strings with 5-140 digits straddling the midpoint, exact halfway expansions for even radices, exponent sweeps over every power-table index, mixed-base hex floats; builds radix and compact+radix+format." + _COMMON,
+ "C06": "TLA+ Ieee!ExactlyEqual(FloatExact(scan of the output), M, e) on the written bytes (no parser of the implementation involved) for radix 2/4/8/16/32 and the mixed formats, every sampled binade, default / forced positional / forced scientific notation, then the implementation's parse-back must return the same bits (relation RoundTripAt)." + _COMMON,
+ "C07": "Well-formedness by the TLA+ grammar automaton of the same format, |value(out) - v| < 2048 / 256 ulp by Ieee!WithinUlps on the exact value of the string, integers below 2^p exact; values around r^k for every generic radix; both notations; parse-back accepted." + _COMMON,
+ "C08": "Relation RoundTripAt over recorded episodes {write, parse of the written bytes with options derived from the write options}: accepted in full, and the same bits where ExactBack says so (integers, zeros, infinities, decimal and power-of-two floats without truncation; NaN -> NaN); MC_FloatWrite shows at the design level that the documented layout is accepted by the grammar of the same format with the same digits." + _COMMON,
+ "C09": "Contract WriteAbnormal against the bound the code itself reports (FORMATTED_SIZE[_DECIMAL], buffer_size_const): with buflen >= bound the call returns within the bound; shorter buffers return within the buffer or panic; canary bytes intact; a fault (guard page) is an event TLC rejects. Option grid x extreme values x {bound, bound-1, exact length, length-1, 0} x both guard placements, all writer back-ends, facade." + _COMMON,
+ "C10": "Every parse event of the corpus (junk, random bytes, numbers, radix formats; 14 types; complete, partial, with options, facade) must be ok/err with indices <= length (panic / fault / timeout are recorded events TLC rejects), in release and in a debug-assertions + overflow-checks build, inputs abutting a guard page at either end; MC_Scan / MC_IntParse: the reference automaton is total and a dead state stays dead." + _COMMON,
+ "C11": "Relation PartialAgreesAt over episodes {partial, complete, complete on the first n bytes (second phase after seeing n)}; MC_IntParse checks the relation on the reference; inputs end in separators, signs, exponent characters, points, suffix letters and prefixes of special strings." + _COMMON,
+ "C12": "The documented grammar as a finite automaton (Scan!Step) explored exhaustively by TLC for every syntax-flag format of the catalogue (MC_Scan: all control states, all input lengths) and validated against all 222 upstream doctest assertions (MC_Docs); one witness per transition is replayed on the real complete parsers (f32/f64/i32/u64) and judged three-valued (accept with value / reject / unspecified); STANDARD additionally on all strings <= 4 over the number alphabet with Rust FromStr as referee." + _COMMON,
+ "C13": "Product of three automata in MC_Scan (format on s, format on s with separators deleted, separator-free counterpart on s) with invariants SepDeletion and NoSepSame over all inputs of all lengths for 45 separator formats; the per-transition witnesses plus long separated components (>= 8 and >= 20 digits) are replayed; relation SepFreeSameAt compares each separator-free input under the format and under its counterpart." + _COMMON,
+ "C14": "Verify-form clauses FloatWrite!LayoutClauses (notation vs breaks, max/min counts, configured characters) on every output and relations OptionsRelationAt (digits = default digits rounded half-even / truncated, carry) and TrimRelationAt over episodes {default-digits twin, options, trim twins}; MC_FloatWrite explores the documented pipeline (1.9 M states) and shows the clauses accept it and the grammar reads it back." + _COMMON,
+ "C15": "FloatParse!SpecialOf (whole input after the sign equals the configured string, case rule, separators only with the flag, never under no_special / None; numeric inputs first) and the writer clauses (NaN unsigned, -inf, signed zero, panic when disabled) on option-string families related by prefix, case flips, XOR-0x20 neighbours of non-letters, extensions, radices where letters are digits." + _COMMON,
+ "C16": "Relation AdditiveAt: the same default-API call recorded under every build configuration must give identical results (float output bytes across non-compact builds; compact output must parse back to the same bits in the default build)." + _COMMON,
+ "C17": "Relation FacadeEqualsCoreAt (lexical::* vs lexical_core::* on the same call in the same build) and the global clause 'every written byte < 128'." + _COMMON,
+ "C18": "Format!FormatValidity / OptionsPunctuationValidity / Options validity and the builder state machine (MC_Builder: getter = last setter, rebuild fixpoint, validity monotone in the feature set) judge run-time builder episodes (sampled 2^18 syntax-flag and 2^13 separator-flag subsets, every byte for each character field, radix fields, setter sequences), the compiled catalogue (format_is_valid / format_error), option builders, and 'invalid format or punctuation yields a configuration error' on all parse entry points." + _COMMON,
+ "C19": "Relation LossyAgreesAt (same acceptance, count and error; exact-fast-path class and clearly-outside zero/infinity bit-identical) plus Ieee!WithinOneUlp on every lossy result, on the near-halfway corpora of C01/C05." + _COMMON,
+}
 NOTE = {}
-TECH = {}
+TECH = {k: "explicit TLA+ specification; TLC bounded models + TLC trace validation of recorded API calls" for k in LEVEL}
